@@ -12,6 +12,7 @@ from .truthiness import check_truthiness
 
 EXPLANATION = (
     "'Any history' is addressed by per-method induction, not by exploring histories. Decides: "
+    "R-leader-position (replace_group_leader writes the new leader at the position of the old one: remove + append / update would move the group to the end of the order); "
     "R-position-truthiness (a name bound only to positions -- .index(), a search over enumerate -- is never tested by truthiness: `if position:` takes position 0 for not found and the first leader is not replaced); "
     "R-comutation (symbolic delta analysis of every constructor case and mutator of GroupedList, on "
     "every path and for every aliasing of the symbolic arguments consistent with the path's tests: "
@@ -24,7 +25,7 @@ EXPLANATION = (
     "test a data value for truthiness); R-sortby-used (results of the pure sort_by / sort are used)."
 )
 NOT_DECIDED = "disjointness of groups under arbitrary update(); equality with a reference model along concrete histories (exploration / model checking)"
-FLOORS = {"R-comutation": 7, "R-append-absent": 14, "R-value-truthiness": 2, "R-nan-aware-lookup": 3, "R-no-raw-mutators": 1, "R-sortby-used": 5, "R-position-truthiness": 1}
+FLOORS = {"R-comutation": 7, "R-append-absent": 14, "R-value-truthiness": 2, "R-nan-aware-lookup": 3, "R-no-raw-mutators": 1, "R-sortby-used": 5, "R-position-truthiness": 1, "R-leader-position": 1}
 
 RAW = {"insert", "extend", "reverse", "clear", "__setitem__", "__delitem__", "popitem"}
 
